@@ -209,12 +209,18 @@ def gen_spec(seed, index, tier):
         try:
             for m in history.gen_steps(ops.sub("mut"), gen.build(base), ops.randint(1, 3),
                                        ext_range=(0.3 if cls == "Polyhedron" else 1e-2, 300.0)):
-                steps.insert(ops.randint(0, len(steps)),
-                             {"op": "mutate", "name": "-", "variant": "", "m": m})
+                pos = ops.randint(0, len(steps))
+                steps.insert(pos, {"op": "mutate", "name": "-", "variant": "", "m": m})
+                # read again, after the mutation, what was read before it: a getter that
+                # refills a buffer it handed out earlier only shows on the second read
+                earlier = [s for s in steps[:pos] if s["op"] == "get"]
+                for s in ops.sample(earlier, min(2, len(earlier))):
+                    again = dict(s, pyseed=ops.u32(), npseed=ops.u32(), repeat=False)
+                    steps.insert(pos + 1, again)
         except Exception:  # noqa: BLE001
             pass
     return {"property": PROP, "index": index, "seed": seed, "base": base, "steps": steps,
-            "cfg": {"bufsize": ops.choice([16, 512, 8192])}}
+            "cfg": {"bufsize": ops.choice([16, 512, 8192]), "chunk": ops.choice([1, 32, 8192])}}
 
 
 def sample(spec):
@@ -346,6 +352,26 @@ def arrays_in(value, out, path="", depth=0):
                 out.append((path + "." + attr.strip("_"), a))
 
 
+def structure(value, depth=0):
+    """Shape of a returned container without array contents: keys, lengths, scalars."""
+    if depth > 4:
+        return "..."
+    if isinstance(value, np.ndarray):
+        return ("ndarray", value.shape, str(value.dtype))
+    if isinstance(value, dict):
+        return ("dict", tuple((str(k), structure(value[k], depth + 1)) for k in sorted(
+            value, key=str)))
+    if isinstance(value, (list, tuple)):
+        if len(value) > 64:
+            return (type(value).__name__, len(value))
+        return (type(value).__name__, tuple(structure(x, depth + 1) for x in value))
+    if isinstance(value, (bool, int, str)) or value is None:
+        return value
+    if isinstance(value, (float, np.floating)):
+        return float(value)
+    return type(value).__name__
+
+
 def _freeze(x):
     if isinstance(x, np.ndarray):
         return x.copy()
@@ -391,8 +417,10 @@ def execute(spec, world):
     L = observe.length_scale(snap0)
     tol_geo = 1e-12 * L
     registry = []  # (step index, op name, path, reference, frozen copy)
+    containers = []  # (step index, op name, reference to a returned dict/list, structure)
     prev = "^"
     bufsize = spec.get("cfg", {}).get("bufsize", 8192)
+    chunk = spec.get("cfg", {}).get("chunk")
     k0 = 0  # index of the first step after the last mutation
     for si, st in enumerate(spec["steps"]):
         C["steps"] += 1
@@ -418,6 +446,7 @@ def execute(spec, world):
             # shape's own storage): keep the references, re-freeze their current content -
             # from here on queries must leave them alone again
             registry = [(si, opn, path, ref, ref.copy()) for _, opn, path, ref, _f in registry]
+            containers = [(si, opn, ref, structure(ref)) for _, opn, ref, _s in containers]
             k0 = si + 1
             prev = "mutate"
             continue
@@ -434,7 +463,8 @@ def execute(spec, world):
         frozen = [(n, a, _freeze(a)) for n, a in watched]
         outcome, value, exc = "ok", None, None
         with world.step(st["pyseed"], st["npseed"], fs_plan=st.get("fs_faults"),
-                        bufsize=bufsize, solver_script=st.get("solver_script")):
+                        bufsize=bufsize, solver_script=st.get("solver_script"),
+                        text_chunk=chunk):
             try:
                 with warnings.catch_warnings():
                     warnings.simplefilter("ignore")
@@ -474,6 +504,16 @@ def execute(spec, world):
                 PROP, "handed-out-array-altered", "%s altered the array returned earlier by %s "
                 "(step %d, %s): %s" % (qname, opn, k, path or "value", why), si, cls=cls,
                 op=qname, earlier=opn))
+            break
+
+        for k, opn, ref, frozen_struct in containers:
+            if structure(ref) != frozen_struct:
+                res["violations"].append(violation(
+                    PROP, "handed-out-container-altered", "%s altered the %s returned earlier "
+                    "by %s (step %d): keys/lengths/scalars changed" % (
+                        qname, type(ref).__name__, opn, k), si, cls=cls, op=qname, earlier=opn))
+                break
+        if res["violations"]:
             break
 
         # 1. observables unchanged since the start (read from a deep copy)
@@ -544,6 +584,9 @@ def execute(spec, world):
             for path, ref in found[:40]:
                 registry.append((si, qname, path, ref, ref.copy()))
             C["handed_out_arrays"] += len(found[:40])
+            if isinstance(value, (dict, list)):
+                containers.append((si, qname, value, structure(value)))
+                C["handed_out_containers"] += 1
     return res
 
 
